@@ -58,6 +58,8 @@ func isBackendCall(cm *ssa.CallCommon) bool {
 
 func checkC13(c *Ctx) {
 	p := c.P
+	checkCallbackSetters(c, "R3", "tableEngine", 5)
+	checkCallbackSetters(c, "R3", "game", 5)
 	checkNoKnownNilErrorReturn(c, "R2", func(f *ssa.Function) bool { return inPkg(p, f, "") && f.Parent() == nil }, 20)
 	gt := p.singleImpl("", "Game")
 	if gt == nil {
